@@ -66,7 +66,7 @@ func GetCache(cacheFile string) MemCache {
 	b, err := ioutil.ReadFile(cacheFile)
 	if err == nil {
 		err = json.Unmarshal(b, &mem)
-		if err == nil && mem.ShardNo == shardNo {
+		if err == nil && mem.ShardNo == shardNo && mem.Cache.isComplete() {
 			return mem.Cache
 		}
 	}
@@ -77,6 +77,22 @@ func GetCache(cacheFile string) MemCache {
 	}
 
 	return m
+}
+
+// isComplete tells if a loaded cache has all its shards and every shard its
+// templates map; a file that was cut short or edited may lack some of them
+func (m MemCache) isComplete() bool {
+	if len(m) != shardNo {
+		return false
+	}
+
+	for _, shard := range m {
+		if shard == nil || shard.Templates == nil {
+			return false
+		}
+	}
+
+	return true
 }
 
 func (m MemCache) getShard(id uint16, addr net.IP) (*TemplatesShard, string) {
